@@ -242,7 +242,8 @@ PROPS = {
                 "of the date) and optional @performance, 1-8 bookings over all five account types incl. both-I/E, neither-I/E, equity legs, same account on both sides and bookings that "
                 "touch the accrual account, quantities from remainder-rich/negative/zero/many-decimal/huge classes; parsed by the real parser, Create compared with the model and accrualOK "
                 "evaluated (original postings taken from the real Create of the same transaction without the annotation); stream malformed: end < start, start 0001-01-01, invalid account "
-                "types, impossible dates, I/E accrual account, random text mutations (outcome classes compared, no panic unless known); stream dec: decimal arithmetic against shopspring. "
+                "types, impossible dates, I/E accrual account, random text mutations (outcome classes compared, no panic unless known; windows of more than ~4000 periods x bookings are skipped); "
+                "stream print: `knut print` on a journal holding the annotated transaction, its output parsed back and compared (sorted) with the library expansion; stream dec: decimal arithmetic against shopspring. "
                 "A class = (stream, outcome, interval, legs bucket, I/E legs, generated bucket).",
         "assumptions": ["shopspring/decimal QuoRem, Add, Neg and String() behave as the Rat model (sampled on every run by the dec stream)",
                         "date.NewPartition behaves as the C11 model (established by C11's exhaustive correspondence)"],
@@ -276,7 +277,7 @@ PROPS = {
                  "(its stored reciprocal Truncate(8)(Div(1,p)) when declared the other way), as Multiply(p,1); every price returned is the fold of Multiply along a simple chain "
                  "of latest prices from V; a commodity has no price iff it is not connected to V, and Valuate fails exactly then; Insert rejects exactly zero prices; the table "
                  "is the same for every enumeration order of the Go maps (outer and inner); Day.Normalized of day i is Normalize of all declarations of days 0..i (nil before the "
-                 "first). The traversal's termination is a well-founded recursion on unvisited+queue length. The executable predicate priceOK is proved of the model "
+                 "first), the days being sorted by date with file order inside a day (C12_journal_order). The traversal's termination is a well-founded recursion on unvisited+queue length. The executable predicate priceOK is proved of the model "
                  "(C12_priceOK) and proved to mean the four clauses (C12_priceOK_sound); it is evaluated on the real code's table for every generated case, the real code is "
                  "compared with the model byte for byte, and every case is run several times with fresh maps.",
         "note": "Partial in one clause: the declared price is returned exactly only when it has at most 8 decimals (C12_direct_exact_partial); with more decimals the real code "
@@ -287,7 +288,7 @@ PROPS = {
                 "random directions, shuffled order, 0-4 redeclarations, prices from nice/8-decimal/9+-decimal/huge/tiny classes, V in or outside the graph; stream malformed: zero, "
                 "negative, self-priced, duplicate, empty; every case: Insert+Normalize+Price+Valuate compared with the model under a random map-order oracle, repeated 3x (6x thorough) "
                 "with fresh registries, monitors priceOK/valuateOK/insertOK/directExact evaluated by the Lean driver on the real table; stream days: the same declarations dated over 1-6 "
-                "days plus days without prices, through journal.Builder and journal.ComputePrices, every day's table compared and monitored against the declarations up to that day; "
+                "days plus days without prices, through journal.Builder (every third case: written to a file and loaded through journal.FromPath, i.e. parser and price.Create) and journal.ComputePrices, every day's table compared and monitored against the declarations up to that day; "
                 "stream dec: decimal arithmetic against shopspring. A class = (shape, size, reached bucket, redeclared?, V in graph?) resp. (shape, days bucket, nil day?, carried day?).",
         "assumptions": ["shopspring/decimal arithmetic and String() behave as the Rat model (sampled on every run by the dec stream)",
                         "two declarations of the same unordered pair on one day are inserted in file order (in-process journal.Builder.Add order); concurrent file loading is C05/C19"],
@@ -424,6 +425,41 @@ PROPS = {
                 "facts (go/ast). A class = (stream, command, file kind, cut/fits, limit bucket) resp. (syscall, file kind, exit) resp. (dir mode, file mode, kind) resp. (n, bad, limit, exit).",
         "assumptions": ["rename(2) replaces the target atomically and fsync makes the temp file durable before it (kernel / file system)",
                         "the temp name chosen by ioutil.TempFile is fresh (O_EXCL) and differs from every target"],
+        "timeout": {"quick": 900, "thorough": 3000},
+    },
+    "C13": {
+        "lean": ["Knut.Properties.C13"],
+        "level": "proof",
+        "claim": "PARTIAL proof + full correspondence, all eleven importers. Lean row models (Model/Import/*.lean) from the records as encoding/csv / encoding/json decoded them "
+                 "to the directives added to the journal.Builder (explicit error / panic outcomes), printed by the model of journal.Print (C09); a specification-side reader per format "
+                 "(Spec/ImportItems.lean: which records are booking rows, their date / currency / signed amount on the import account, carried balances and prices) and the predicate "
+                 "Faithful (Spec/ImportSpec.lean). Proved for ALL record lists and field contents, for ten importers (swisscard2, swisscard, supercard, cumulus, postfinance, revolut2, "
+                 "revolut, wise, viac, swissquote): C13_<importer> - if the importer succeeds its directives are, one for one and in order, the statement's items: one transaction per "
+                 "booking row, on the row's date, whose net effect on the import account equals the row's signed amount in every commodity, with at least one booking; the carried "
+                 "balances / prices verbatim; nothing else (C13_count, C13_booking_row, C13_nothing_else, C13_no_open_close, C13_swisscard2_one_tx_per_row); the monitor's executable "
+                 "predicate is complete and sound for Faithful (C13_monitor_complete, C13_monitor_sound, C13_matchesB_iff). Kernel-checked witnesses of the deviations: "
+                 "wise_conversion_two_transactions, swissquote_forex_pair_one_transaction, swissquote_sale_without_proceeds_is_booked_as_purchase, postfinance_echo_nonempty. "
+                 "NOT mechanised: (1) the text-level clause (output parses, is accepted and re-printed unchanged once the accounts are opened; stays valid for arbitrary free text) - it "
+                 "needs print-then-parse lemmas of the parser model; decided on every run on the REAL output by knut's own parser, the Lean parser model, `knut print` on opens + output "
+                 "(accepted, byte-identical), over free text with quotes, separators, newlines, control characters and Unicode; (2) the Faithful theorem for us.interactivebrokers (row "
+                 "model and reader exist and are compared / monitored, a test not a proof). Tie: `knut import <x>` as a subprocess on generated statements of every format (and the "
+                 "repository's eleven example inputs), stdout compared byte for byte with the Lean row model + printer for all eleven importers, also on a malformed stream (mutated "
+                 "fields, structure, bytes, flags: same ok / error / panic outcome); the library functions the models rely on (decimal.NewFromString, time.Parse x 5 layouts, "
+                 "strings.TrimSpace/Fields/Trim/Replacer, the importers' regular expressions, registry name checks) are compared with Go on structured and mutated strings.",
+        "note": "Trusted: Lean kernel; axioms propext, Classical.choice, Quot.sound; encoding/csv, encoding/json, charmap ISO 8859-1 and the BOM skipper (decoding is mirrored by the harness with the "
+                "importers' reader settings and handed to the models as records); cobra flag parsing; journal.Print's sort (sort.Slice modelled as stable). Domain: statements are text in their "
+                "encoding (a statement that is not valid UTF-8 yields descriptions the journal syntax cannot carry). Known findings (KNOWN-FINDING lines, exit 0): "
+                "C13-postfinance-debug-line-on-stdout, C13-quote-replaced-after-sorting, C13-swissquote-sale-without-proceeds-booked-as-purchase, C13-wise-conversion-two-transactions, "
+                "C13-swissquote-forex-pair-one-transaction, C13-interactivebrokers-rounds-to-cents.",
+        "rule": "streams: stmt (per importer: 0-60 rows, dates over several years and days with several rows, debits and credits, zero amounts, amounts with thousands separators / trailing zeros / "
+                "up to 8 decimals / leading-dot / exponent literals, several currencies incl. non-ASCII commodity names, fees, exchange rows, forex pairs, trades, dividends with withholding, "
+                "pending / cancelled / ignored rows, balances consistent from a zero opening balance, free text from plain / Latin-1 / Unicode / quotes / separators / newlines / control characters, "
+                "CSV written quoted-all or minimally, bare quotes for LazyQuotes readers, blanks after separators, CRLF, BOM), malformed (a well-formed statement with one mutation: empty, truncated, "
+                "line removed / doubled / blanked / swapped, field added / dropped, stray quote, damaged number / date / currency, invalid account flag, random byte), golden (the repository's example "
+                "inputs), lib-dec, lib-date, lib-str. class = (stream, importer, outcome, row bucket, free-text features, amount / row-kind features).",
+        "assumptions": ["statements are valid text in their encoding (UTF-8, resp. ISO 8859-1 for ch.supercard)",
+                        "the accounts given by flags differ from the import account (otherwise a posting pair cancels itself)",
+                        "the print-then-parse round trip of journal.Print is not mechanised; it is monitored on the real output of every case"],
         "timeout": {"quick": 900, "thorough": 3000},
     },
 }
